@@ -102,7 +102,29 @@ func (c Case) build(srcDir string) api.BuildResult {
 	return api.Build(o)
 }
 
+// judge requires a failure to be reproducible: the file-based runner is a long-lived Node process, and on a
+// very busy machine a late event of the previous run (a dynamic import that finished after the quiescence
+// poll gave up) can land in the next trace. A verdict must be a function of the case, so a failing case is
+// judged a second time; it fails only if it fails again against the same reference trace.
 func judge(c Case) vdrv.Verdict {
+	v := judgeOnce(c)
+	if v.OK || v.Discard != "" {
+		return v
+	}
+	v2 := judgeOnce(c)
+	if v2.Discard != "" {
+		return v2
+	}
+	if v2.OK {
+		return vdrv.Skip("failure-not-reproducible")
+	}
+	if v2.Expected != v.Expected {
+		return vdrv.Skip("nondeterministic-reference")
+	}
+	return v2
+}
+
+func judgeOnce(c Case) vdrv.Verdict {
 	dir, err := os.MkdirTemp("", "c02-")
 	if err != nil {
 		return vdrv.Skip("tmpdir")
@@ -214,7 +236,8 @@ func judge(c Case) vdrv.Verdict {
 		nrt, ngt = strings.ReplaceAll(nrt, ":recv", ""), strings.ReplaceAll(ngt, ":recv", "")
 		known = "C02-namespace-call-receiver"
 	}
-	if nrt != ngt && c.Format == "esm" && hasLabel(c.Labels, "export-star-from-cjs") {
+	if nrt != ngt && hasLabel(c.Labels, "export-star-from-cjs") && (c.Format == "esm" || hasLabel(c.Labels, "cycle")) {
+		// (in cjs/iife output the names are only lost when the star path runs through an `export *` cycle)
 		// C02-esm-export-star-from-cjs: the names of a starred CommonJS module are missing from the
 		// export list of the entry and from the namespaces of the modules on the star path
 		cjs := cjsStarNames(c)
@@ -227,8 +250,33 @@ func judge(c Case) vdrv.Verdict {
 		v.Known = known
 	} else if id := reexecutedThrowingCJS(c, rt, gt); id != "" {
 		v.Known = id
+	} else if hasLabel(c.Labels, "cycle") && hasLabel(c.Labels, "top-level-throw") && erroredCycleOnly(rt, gt) {
+		v.Known = "C02-errored-cycle-member-importable"
 	}
 	return v
+}
+
+var dynFailedRe = regexp.MustCompile(`^s:"(m\d+:dyn m\d+) failed" err:\w+$`)
+
+// erroredCycleOnly: the traces differ only in lines where the native run reports a failed dynamic import and the
+// bundle reports the same import as successful (known finding C02-errored-cycle-member-importable).
+func erroredCycleOnly(rt, gt string) bool {
+	a, b := strings.Split(rt, "\n"), strings.Split(gt, "\n")
+	if len(a) != len(b) {
+		return false
+	}
+	n := 0
+	for i := range a {
+		if a[i] == b[i] {
+			continue
+		}
+		m := dynFailedRe.FindStringSubmatch(a[i])
+		if m == nil || !strings.HasPrefix(b[i], `s:"`+m[1]+`" `) {
+			return false
+		}
+		n++
+	}
+	return n > 0
 }
 
 // reexecutedThrowingCJS recognises known finding C02-throwing-cjs-reexecuted: the body of a CommonJS
